@@ -105,6 +105,11 @@ pub const PIPELINE_CHECKS: &[&str] = &["C01", "C02", "C03", "C04", "C05", "C06",
 pub fn evaluate_case(check: &str, scenario: &Arc<Scenario>, sched: &SchedSpec, trace: Option<Trace>, want: &PipelineWant) -> CaseOutput {
     match check {
         "C06" => oracle::run_relation_case(scenario, sched, trace, want),
+        // With a delegated-safety policy on, stock revm is no reference: path agreement and the
+        // fundability invariant decide; with the policies off the block is tied to stock revm.
+        "C13" if scenario.grevm.reserve_delegated_balance || scenario.grevm.forbid_delegated_create => {
+            oracle::run_relation_case(scenario, sched, trace, want)
+        }
         _ => oracle::run_pipeline_case(scenario, sched, trace, want),
     }
 }
@@ -169,6 +174,18 @@ pub fn plan_pipeline_case(check: &str, tier: Tier, seed: u64, idx: u64) -> Plan 
                 }
             }
         }
+        "C11" => {
+            if rng.chance(1, 4) {
+                let mut sub = Prng::new(rng.next_u64());
+                let before = scenario.faults.len();
+                let _ = faultgen::add_error_faults(&mut scenario, &mut sub);
+                for f in scenario.faults.iter_mut().skip(before) {
+                    f.mode = crate::scenario::FaultMode::Persistent;
+                }
+                scenario.faults.retain(|f| !matches!(f.key, crate::scenario::FaultKey::Any));
+                group = "precompile/persistent-fault";
+            }
+        }
         "C10" => {
             // cold cache so that speculative readers race commits inside the cache-filling reads;
             // half of the runs execute a second block on the state the first one left behind
@@ -207,13 +224,13 @@ pub fn filter_findings(check: &str, findings: Vec<Finding>) -> (Vec<Finding>, Ve
             "C03" => matches!(f.property, "C03" | "C01" | "C02").then_some("C03"),
             "C04" => (f.property == "C04" || f.property == "C02").then_some("C04"),
             "C05" => (f.property == "C05").then_some("C05"),
-            "C06" => (f.property == "C06").then_some("C06"),
+            "C06" => matches!(f.property, "C06" | "C13").then_some("C06"),
             "C07" => matches!(f.property, "C01" | "C02" | "C03").then_some("C07"),
             "C08" => matches!(f.property, "C01" | "C02" | "C03").then_some("C08"),
             "C09" => matches!(f.property, "C01" | "C02" | "C03").then_some("C09"),
             "C10" => (f.property == "C10").then_some("C10"),
             "C11" => matches!(f.property, "C01" | "C02" | "C03" | "C04" | "C11").then_some("C11"),
-            "C13" => matches!(f.property, "C01" | "C02" | "C03" | "C13").then_some("C13"),
+            "C13" => matches!(f.property, "C01" | "C02" | "C03" | "C06" | "C13").then_some("C13"),
             "C15" => (f.property == "C15").then_some("C15"),
             _ => None,
         };
@@ -265,7 +282,7 @@ pub fn check_spec(id: &str) -> CheckSpec {
         "C02" => CheckSpec { id: "C02", runs_quick: 150_000, runs_thorough: 6_000_000, level: "exploration", rule: rule_pipeline },
         "C03" => CheckSpec { id: "C03", runs_quick: 150_000, runs_thorough: 6_000_000, level: "exploration", rule: rule_pipeline },
         "C04" => CheckSpec { id: "C04", runs_quick: 120_000, runs_thorough: 5_000_000, level: "fault_enumeration", rule: rule_pipeline },
-        "C06" => CheckSpec { id: "C06", runs_quick: 30_000, runs_thorough: 1_500_000, level: "exploration", rule: "cases = seeded blocks (all profiles, all four delegated-safety policy combinations, a quarter on a persistently faulty database), each executed five ways: simulated parallel run, simulated parallel run with another worker count and schedule, min_parallel_txs above the block size, force_sequential, fallback_sequential() entry; non-trivial = a re-execution, erroring attempt, fallback or error result; distinct = distinct abstract behaviour" },
+        "C06" => CheckSpec { id: "C06", runs_quick: 80_000, runs_thorough: 3_000_000, level: "exploration", rule: "cases = seeded blocks (all profiles, all four delegated-safety policy combinations, a quarter on a persistently faulty database), each executed five ways: simulated parallel run, simulated parallel run with another worker count and schedule, min_parallel_txs above the block size, force_sequential, fallback_sequential() entry; non-trivial = a re-execution, erroring attempt, fallback or error result; distinct = distinct abstract behaviour" },
         "C05" => CheckSpec { id: "C05", runs_quick: 150_000, runs_thorough: 6_000_000, level: "exploration", rule: rule_pipeline },
         "C07" => CheckSpec { id: "C07", runs_quick: 120_000, runs_thorough: 5_000_000, level: "exploration", rule: rule_pipeline },
         "C08" => CheckSpec { id: "C08", runs_quick: 120_000, runs_thorough: 5_000_000, level: "exploration", rule: rule_pipeline },
